@@ -3,6 +3,6 @@ CONSTANTS
   OffsMod = 65536
   Part = "three"
   Kind = "urihdrs"
-  NPat = 3
+  NPat = 4
 INVARIANTS Emit
 CHECK_DEADLOCK FALSE
